@@ -390,7 +390,7 @@ package fsm
 //@   requires *reader != nil && cmpWF(*cmp) && *keyBuf != nil && (*keyBuf).slen == 0
 //@   ensures [C02.cmp.one]   err == nil ==> ok == holdsSingle((*reader).vP, (*reader).vV, *cmp)
 //@   ensures [C02.cmp.reuse] err == nil && ok ==> (*keyBuf).slen == 0
-//@   modifies (*keyBuf).slen, (*keyBuf).sdata
+//@   modifies (*keyBuf).slen, (*keyBuf).sdata, (*keyBuf).nmsg, (*keyBuf).msg
 
 // conjunction of the predicates against ONE view
 //@ func txnCompare
